@@ -635,6 +635,59 @@ Definition run_c09_server (args : list sx) : sx :=
     end
   | _ => None end).
 
+(* ---------- the runner's wiring: which reader gets which limit ----------
+   client_runner.go  consumeOutput :        ReadDelimitedMessage(proc.stdout, resp, "client", clientResponseTimeout, maxClientResponseSize)
+   server_runner.go  runTestCasesForServer : ReadDelimitedMessage(serverProcess.stdout, &resp, "server", serverResponseTimeout, maxServerResponseSize)
+   The two constants are regenerated from the compiled code (C09_Consts); the table says which of them
+   each of the two readers hands to read_msg. *)
+Inductive reader := ReadsClientOutput | ReadsServerResponse.
+Definition reader_limit (r : reader) : N :=
+  match r with
+  | ReadsClientOutput => c09_max_client_response
+  | ReadsServerResponse => c09_max_server_response
+  end.
+Definition reader_read (r : reader) (s : src) : rm := read_msg (reader_limit r) s.
+Definition reader_bufs (r : reader) (s : src) : list N := msg_bufs (reader_limit r) s.
+
+(* what the reader does with a stream that announces `size` and then delivers `avail` <= size body bytes
+   before it ends: closed form, used to RUN the model on announcements of many megabytes without
+   building the body (limits_closed_form ties it to reader_read / reader_bufs for every body and schedule) *)
+Inductive lim_verdict := LvOversize | LvMsg | LvShort.
+Definition limit_verdict (r : reader) (size avail : N) : lim_verdict :=
+  if reader_limit r <? size then LvOversize else if size <=? avail then LvMsg else LvShort.
+(* body bytes taken from the stream behind the prefix; the buffers made *)
+Definition limit_consumed (r : reader) (size avail : N) : N :=
+  match limit_verdict r size avail with LvOversize => 0 | LvMsg => size | LvShort => avail end.
+Definition limit_bufs (r : reader) (size : N) : list N :=
+  if reader_limit r <? size then [c09_prefix_len] else [c09_prefix_len; size].
+
+Definition un_reader (s : sx) : option reader :=
+  match s with I 0%Z => Some ReadsServerResponse | I 1%Z => Some ReadsClientOutput | _ => None end.
+
+(* (side size avail sched tail) -> (verdict body-bytes-consumed largest-buffer): side 0 = the real
+   runTestCasesForServer reading its server's response, 1 = the real clientProcessRunner.consumeOutput;
+   the stream is the 4-byte prefix of `size`, then `avail` <= size bytes of a valid message of that size,
+   then EOF (tail 0) or another error (tail 2) - never a stall.  sizes 1 and 2 cannot be a valid
+   message of the harness (test name + padding): not cases *)
+Definition run_c09_limits (args : list sx) : sx :=
+  or_bad (match args with
+  | [side; size; avail; sch; tl] =>
+    do r <- un_reader side; do size <- un_N size; do avail <- un_N avail;
+    do _ <- un_listof un_nat sch; do tl <- un_tail tl;
+    if (4294967296 <=? size) || (size <? avail) || (size =? 1) || (size =? 2) then None
+    else match tl with
+    | TBlock => None
+    | _ =>
+      ret (L [B (match limit_verdict r size avail with
+                 | LvOversize => bs "oversize"
+                 | LvMsg => bs "accepted"
+                 | LvShort => match tl with TFail => bs "io-error" | _ => bs "unexpected-eof" end
+                 end);
+              sx_N (limit_consumed r size avail);
+              sx_N (fold_right N.max 0 (limit_bufs r size))])
+    end
+  | _ => None end).
+
 Definition c09_table : list (bytes * (list sx -> sx)) :=
   [ (bs "c09.raw", run_c09_read);
     (bs "c09.read", run_c09_read);
@@ -648,4 +701,9 @@ Definition c09_table : list (bytes * (list sx -> sx)) :=
     (bs "c09.pipe", run_c09_pipe);
     (bs "c09.jsonwrite", run_c09_jsonwrite);
     (bs "c09.client", run_c09_client);
-    (bs "c09.server", run_c09_server) ].
+    (bs "c09.server", run_c09_server);
+    (* the gRPC reference peers: the same loops (grpcclient.RunWithTrace creates its decoder once per
+       stream, grpcserver.RunWithTrace reads its one request with one decoder) *)
+    (bs "c09.grpcclient", run_c09_client);
+    (bs "c09.grpcserver", run_c09_server);
+    (bs "c09.limits", run_c09_limits) ].
